@@ -117,7 +117,8 @@ class Check:
 
     def match_known(self, signature):
         for k in self.known:
-            if k.get('status') == 'open' and all(signature.get(f) == v for f, v in k['signature'].items()):
+            if k.get('status') == 'open' and all((signature.get(f) in v) if isinstance(v, list) else (signature.get(f) == v)
+                                                 for f, v in k['signature'].items()):
                 return k
         return None
 
